@@ -14,8 +14,6 @@ for o in R.obs:
         e['n'] += 1
 lines = []
 for p in sorted(byprop):
-    if p == 'C20':
-        continue
     lines.append('**%s** — %d rule ids, %d obligations on the current tree' % (p, len(byprop[p]), sum(e['n'] for e in byprop[p].values())))
     lines.append('')
     for r, e in sorted(byprop[p].items()):
